@@ -20,6 +20,7 @@ def run(replay=None):
     chk.cov['format_constants_in_source'] = {k: rep.get('tags', {}).get(k) for k in ('magic', 'footer')}
     chk.prove('Properties_C06.v')
     names = sc.catalogue(chk, extra_random=24 if chk.tier == 'thorough' else 10)
+    names = list(dict.fromkeys(list(names) + ['array.1.f32', 'array.3.f64', 'strided.2.u64/array.2.f32', 'morton.2.u64.p/array.1.f64', 'clamp/strided.1.u64/array.1.f64']))
     runner = sc.StackRunner(chk, 'io', names)
     for s, log in runner.failed.items():
         chk.violation('stack does not compile: ' + '/'.join(l.split('.')[0] for l in s.split('/')), f'dump / load of {s} is rejected by the compiler: {sc.first_error(log)}',
@@ -32,6 +33,11 @@ def run(replay=None):
         for j in range(per):
             toks = sc.rand_field(chk.rng, n, max_extent=3 if j else 1, min_extent=0 if j == per - 1 else 1)
             fields.append((n, toks))
+    # payloads longer than any plausible internal block, and not a multiple of a power of two
+    for n, sz in [('array.1.f32', [700]), ('array.3.f64', [513]), ('strided.2.u64/array.2.f32', [25, 41]), ('morton.2.u64.p/array.1.f64', [37, 20]), ('clamp/strided.1.u64/array.1.f64', [1500])]:
+        if n in names and n not in runner.failed and 'probe' not in n:
+            fields.append((n, sc.rand_field(chk.rng, n, sizes=sz, data_mode='nice') if not n.startswith('array') else
+                           [sz[0]] + [sc.rand_scalar(chk.rng, n.split('.')[-1], 'nice') for _ in range(sz[0] * int(n.split('.')[1]))]))
     if replay:
         import json
         fields = [(c[0], c[1]) for c in json.load(open(replay)).get('replay', {}).get('cases', [])] or fields
